@@ -120,6 +120,11 @@ impl WaitGroup {
 
 impl Drop for WaitGroup {
     fn drop(&mut self) {
+        // a drop must not be a cancellation point: a Cancel panic out of the contended
+        // `count.lock()` would skip the decrement and `wait` would never return (and it
+        // would abort the process when the clone is dropped by the unwinding of a
+        // cancelled coroutine). a pending cancel is delivered at the next cancellation point
+        let _g = crate::cancel::CancelDisableGuard::new();
         let mut count = self.inner.count.lock().unwrap();
         *count -= 1;
 
